@@ -713,7 +713,20 @@ def aliases(fn, allow_closures=False):
         if kind(p) == "FnArg::Typed":
             for n in pat_idents(p["0"]["pat"]):
                 count[n] = count.get(n, 0) + 1
-    return {n: v for n, v in inits.items() if count.get(n, 0) == 1}
+    # a name interpolated into a template (`#name`) must keep its `let`: the template refers to it
+    interpolated = set()
+
+    def scan(ts):
+        for i, t in enumerate(ts):
+            if kind(t) == "Punct" and punct_char(t) == "#" and i + 1 < len(ts) and kind(ts[i + 1]) == "Ident":
+                interpolated.add(ts[i + 1]["sym"])
+            if kind(t) == "Group":
+                scan(t["stream"])
+
+    for x, _ in walk(fn.block):
+        if kind(x) in ("Expr::Macro", "Stmt::Macro") and isinstance(x.get("mac"), dict):
+            scan(x["mac"].get("tokens") or [])
+    return {n: (v[0], v[1], n in interpolated) for n, v in inits.items() if count.get(n, 0) == 1}
 
 
 def inline_text(text, als, depth=0):
@@ -751,7 +764,7 @@ def fn_text(fn, inline=False):
     if not inline:
         return Txt(";".join(render_stmt(s) for s in fn.block["stmts"]))
     als = aliases(fn)
-    drop = {id(v[1]) for v in als.values()}
+    drop = {id(v[1]) for v in als.values() if not (len(v) > 2 and v[2])}
 
     def rs(block_stmts):
         return [s for s in block_stmts if id(s) not in drop]
@@ -1030,6 +1043,19 @@ def iteration_of(node, within):
                     src = render(p["expr"])
                     best = (src, render_pat(p["pat"]), p["body"]["stmts"])
                     break
+                if k == "Expr::Closure" and i > 0 and kind(ps[i - 1]) in ("LocalInit", "Stmt::Local"):
+                    # `let f = |x| ..;  xs.iter().map(f)`: the closure is the body of the iteration that names it
+                    loc = next((q for q in reversed(ps[:i]) if kind(q) == "Stmt::Local"), None)
+                    names = pat_idents(loc["pat"]) if loc else []
+                    if len(names) == 1:
+                        for y, _ in walk(within):
+                            if kind(y) == "Expr::MethodCall" and y["method"]["sym"] in ("map", "filter_map", "for_each", "flat_map", "try_for_each") and any(kind(a) == "Expr::Path" and path_str(a) == names[0] for a in y["args"]):
+                                body = p["body"]
+                                stmts = body["block"]["stmts"] if kind(body) == "Expr::Block" else [{"_": "Stmt::Expr", "0": body, "1": None}]
+                                best = (render(y["receiver"]), ",".join(render_pat(q) for q in p["inputs"]), stmts)
+                                break
+                    if best is not None:
+                        break
                 if k == "Expr::Closure" and i > 0 and kind(ps[i - 1]) == "Expr::MethodCall" and ps[i - 1]["method"]["sym"] in ("map", "filter_map", "for_each", "flat_map", "try_for_each"):
                     mc = ps[i - 1]
                     src = render(mc["receiver"])
